@@ -17,15 +17,18 @@ META = {
                   "are pairwise non-unifiable (different arity, different literal tag, or different argument kinds) unless "
                   "they belong to the same accessor; (3) key completeness: for every get_or_create(key, factory) site every "
                   "parameter of the enclosing method that the factory closure reads occurs in the key expression; (4) "
+                  "invalidation frame: every cached factory that reads an orbit's mutable logical state (initial state, "
+                  "period; directly, through the whole orbit escaping into an engine call, or through another method of its "
+                  "class) either lives in the service whose setters reset that cache or carries the state in its key; (5) "
                   "get_or_create / reset / the period and degree setters / pickling hooks satisfy their postconditions (cache "
                   "hit returns the stored value without calling the factory, reset(key) removes exactly that key, changing the "
                   "period clears trajectory, stability info and the whole cache, changing the degree drops the pipeline entries "
                   "of the old and the new degree).",
     "level_note": "NOT decided: the universally quantified statement over all finite operation histories and over objects "
                   "sharing services, and save/load fidelity of compiled objects - those need a different technique (stateful "
-                  "exploration). (1) is exhaustive over a bounded grammar, (2)-(3) are syntactic effect analyses: a site "
-                  "reported 'complete' may still read mutable object state; staleness after state mutation is covered only "
-                  "for the setters under contract. Presentation-only parameters (show_progress) are exempt from (3).",
+                  "exploration). (1) is exhaustive over a bounded grammar, (2)-(4) are syntactic effect analyses; the mutable "
+                  "logical state tracked by (4) is the orbit's (initial_state, period); other object state is treated as "
+                  "immutable after construction. Presentation-only parameters (show_progress) are exempt from (3).",
     "technique": "bounded-exhaustive injectivity check of the real key function + AST effect/frame extraction over all cache call sites + closed postcondition checks of the cache primitives",
 }
 
